@@ -230,7 +230,9 @@ pub fn c18_dedent(c: &StrCase) -> Outcome {
     }
     let twice = dedent(&got);
     if twice != got {
-        return Err(format!("not idempotent: dedent({:?}) = {:?}, again = {:?}", s, got, twice));
+        // a line whose own text ends in '\r' (e.g. "a\r\r\n"): dedent writes it back followed by '\n', which reads as a CRLF the second time
+        let class = if got.contains("\r\n") { "[class=KF4-line-text-ends-in-cr] " } else { "" };
+        return Err(format!("{}not idempotent: dedent({:?}) = {:?}, again = {:?}", class, s, got, twice));
     }
     if !s.contains('\r') {
         for p in [" ", "\t", "  \t"] {
